@@ -248,7 +248,10 @@ impl Run {
     }
     pub fn violate(&self, v: Violation) {
         self.stop.store(true, Ordering::Relaxed);
-        self.violations.lock().unwrap().push(v);
+        let mut vs = self.violations.lock().unwrap();
+        if vs.len() < 5 && !vs.iter().any(|x| x.case == v.case) {
+            vs.push(v);
+        }
     }
     pub fn thread_seed(&self, section: &str, tid: usize) -> [u8; 32] {
         let mut x = hash64(&(self.seed, &self.id, section, tid as u64));
